@@ -196,7 +196,11 @@ func dyadicGrid(rng *rand.Rand, a, b float64) []float64 {
 	for i := 0; i < 6; i++ {
 		switch rng.Intn(5) {
 		case 0:
-			xs = append(xs, snap(math.Pow(10, -rng.Float64()*12)))
+			if rng.Intn(2) == 0 { // hundreds of decades below 1 (x and 1-x are still exact floats)
+				xs = append(xs, math.Ldexp(1, -rng.Intn(1000)))
+			} else {
+				xs = append(xs, snap(math.Pow(10, -rng.Float64()*12)))
+			}
 		case 1:
 			xs = append(xs, snap(1-math.Pow(10, -rng.Float64()*12)))
 		case 2:
@@ -278,8 +282,11 @@ func genC08(w *bufio.Writer, tier string, rng *rand.Rand) {
 			case 0:
 				a, b = float64(1+rng.Intn(80)), float64(1+rng.Intn(80))
 			case 1: // around the largest arguments whose Gamma is a finite float64 (171.62...)
-				a = []float64{170, 171, 171.5, 172, 100, 85.8, 2, 1, 0.5}[rng.Intn(9)]
-				b = []float64{170, 171, 171.6, 172, 100, 85.9, 2, 1, 170.9, 71.7}[rng.Intn(10)]
+				a = []float64{170, 171, 171.5, 172, 100, 85.8, 2, 1, 0.5, 0.05, 0.1, 0.3}[rng.Intn(12)]
+				b = []float64{170, 171, 171.6, 172, 100, 85.9, 2, 1, 170.9, 71.7, 171.45, 171.3, 171.55}[rng.Intn(13)]
+				if rng.Intn(2) == 0 {
+					a, b = b, a
+				}
 			}
 			fmt.Fprintf(w, "mx beta %s %s\n", fmtF(a), fmtF(b))
 		default:
